@@ -5,7 +5,10 @@ package dig
 // Scenario driver: generates descriptors from nondet choices under a profile,
 // runs a history skeleton and applies the monitors (assertion clauses).
 
-import "reflect"
+import (
+	"errors"
+	"reflect"
+)
 
 type vProfile struct {
 	name       string
@@ -34,6 +37,7 @@ type vProfile struct {
 	noMissing  bool // assume every Invoke has all required deps
 	callbacks  bool
 	lateScopes bool // scopes may also be created after registrations
+	quietCalls bool // call String/Visualize after every registration
 }
 
 type vHist struct {
@@ -46,6 +50,7 @@ type vHist struct {
 
 	wRecover bool
 	wDefer   bool
+	nScopes  int
 }
 
 func (h *vHist) enabled(clause string) bool {
@@ -239,21 +244,6 @@ func (h *vHist) assumeDistinct(f *vFunc) {
 	}
 }
 
-func (h *vHist) maybeScope(tag string) {
-	w := h.w
-	for len(w.scopes) < h.p.maxScopes && verifNdBool(tag+".mkscope") {
-		parent := verifNdInt(tag+".parent", len(w.scopes))
-		w.newScope(parent)
-	}
-}
-
-func (h *vHist) pickScope(tag string) int {
-	if len(h.w.scopes) == 1 {
-		return 0
-	}
-	return verifNdInt(tag+".scope", len(h.w.scopes))
-}
-
 // ---- monitors ---------------------------------------------------------------------------
 
 // checkEnter runs inside every user function body, after its arguments have
@@ -273,8 +263,8 @@ func (h *vHist) checkEnter(w *vWorld, e *vExec) {
 	h.assert("C17.norun", !w.dry)
 	// C03: outside an Invoke nothing runs; inside only the closure runs
 	h.assert("C03.reg", w.cur >= 0)
-	if w.cur >= 0 && f.kind != vInvoked && h.inv != nil {
-		h.assert("C03.only", vHas(h.inv.may, r))
+	if w.cur >= 0 && f.kind != vInvoked && w.inv != nil {
+		h.assert("C03.only", vHas(w.inv.may, r))
 	}
 	// C01 / C07 / C12: every argument is what the model resolves
 	scope := w.resScope(r)
@@ -329,6 +319,52 @@ func (h *vHist) checkEnter(w *vWorld, e *vExec) {
 	if f.kind != vInvoked {
 		verifWitness("ctor-ran")
 	}
+	w.record(h.execSummary(w, e))
+}
+
+func (h *vHist) valName(w *vWorld, rc vRecv) string {
+	if rc.isNil {
+		return "nil"
+	}
+	v := w.findVal(rc.ptr)
+	if v == nil {
+		return "?"
+	}
+	return "f" + vItoa(v.by.reg.f.id) + ".r" + vItoa(v.res) + "." + vItoa(v.elem) + "#" + vItoa(v.by.n)
+}
+
+// execSummary describes one execution by the provenance of its arguments
+// (used to compare two containers in the differential harnesses).
+func (h *vHist) execSummary(w *vWorld, e *vExec) string {
+	s := " exec f" + vItoa(e.reg.f.id) + "#" + vItoa(e.n) + "("
+	for i, rc := range e.args {
+		if i > 0 {
+			s += ","
+		}
+		if rc.isGrp {
+			var names []string
+			for _, el := range rc.list {
+				names = append(names, h.valName(w, el))
+			}
+			// insertion sort: group order is unspecified
+			for a := 1; a < len(names); a++ {
+				for b := a; b > 0 && names[b] < names[b-1]; b-- {
+					names[b], names[b-1] = names[b-1], names[b]
+				}
+			}
+			s += "{"
+			for j, n := range names {
+				if j > 0 {
+					s += ";"
+				}
+				s += n
+			}
+			s += "}"
+		} else {
+			s += h.valName(w, rc)
+		}
+	}
+	return s + ")"
 }
 
 func (e *vExec) succeededIs() bool {
@@ -442,30 +478,84 @@ func (h *vHist) softMust(w *vWorld, e *vExec, fd *vReg) bool {
 }
 
 // afterInvoke applies the API-level monitors to a finished Invoke.
-func (h *vHist) afterInvoke(r *vReg, o vOutcome, cl *vClosure, before []int) {
-	w := h.w
-	f := r.f
-	h.assert("C14.nopanic", o.class != vcPanicked || o.panicIsUser(w))
+func (h *vHist) afterInvoke(w *vWorld, r *vReg, o vOutcome, cl *vClosure, before []int) {
+	// executions of this Invoke that failed (error or panic)
+	var failed []*vExec
+	all := append([]*vReg{r}, w.regs...)
+	for _, reg := range all {
+		for _, e := range reg.execs {
+			if e.invoke == w.invokes-1 && e.outcome != vOK {
+				failed = append(failed, e)
+			}
+		}
+	}
 	ran := len(r.execs)
+	h.assert("C14.nopanic", o.class != vcPanicked || len(failed) > 0)
+	if len(failed) > 0 {
+		verifWitness("user-failure")
+		fe := failed[0]
+		h.assert("C07.one", len(failed) == 1)
+		switch fe.outcome {
+		case vFail:
+			h.assert("C07.cause", o.class == vcUser && o.uerr == fe.err)
+			h.assert("C13.root", o.class == vcUser && o.uerr == fe.err)
+			if o.err != nil {
+				h.assert("C13.is", errors.Is(o.err, fe.err))
+			}
+			if fe.reg == r {
+				h.assert("C13.invoke", o.err == error(fe.err))
+				verifWitness("invoked-fn-error")
+			} else {
+				verifWitness("ctor-error")
+			}
+		case vPanic:
+			if w.recover {
+				h.assert("C07.cause", o.class == vcPanicErr && o.pval == interface{}(fe.pval))
+				h.assert("C13.panicErr", o.class == vcPanicErr && o.pval == interface{}(fe.pval))
+				if o.class == vcPanicErr {
+					_, isPE := RootCause(o.err).(PanicError)
+					h.assert("C13.panicRoot", isPE)
+					var de Error
+					h.assert("C13.panicNotDig", !errors.As(RootCause(o.err), &de))
+				}
+				verifWitness("panic-recovered")
+			} else {
+				h.assert("C13.propagate", o.class == vcPanicked && o.panicv == interface{}(fe.pval))
+				h.assert("C07.cause", o.class == vcPanicked && o.panicv == interface{}(fe.pval))
+				verifWitness("panic-propagated")
+			}
+		}
+		if fe.reg != r {
+			h.assert("C01.once", ran == 0)
+		}
+	} else {
+		h.assert("C13.nouser", o.class != vcUser && o.class != vcPanicErr && o.class != vcPanicked)
+	}
 	if o.class == vcOK {
 		h.assert("C01.once", ran == 1)
 		verifWitness("invoke-ok")
 		for _, m := range cl.must {
 			h.assert("C03.all", m.succeeded() != nil)
+			h.assert("C07.retry", m.succeeded() != nil)
+			if len(m.execs) > 1 {
+				verifWitness("retried")
+			}
 		}
 		if len(cl.must) >= 2 {
 			verifWitness("invoke-ok-2deps")
 		}
-	} else {
-		if h.p.faults <= 1 {
-			h.assert("C01.once", ran == 0)
-		}
+	} else if len(failed) == 0 {
+		h.assert("C01.once", ran == 0)
 	}
+	h.assert("C13.cycle", (o.class == vcCycle) == (o.err != nil && IsCycleDetected(o.err)))
 	if cl.missing {
-		h.assert("C04.err", o.class == vcDig)
+		if len(failed) == 0 {
+			h.assert("C04.err", o.class == vcDig)
+			h.assert("C13.dig", o.class == vcDig)
+		}
 		h.assert("C04.err", ran == 0)
 		verifWitness("missing")
-	} else if h.p.faults <= 1 && h.p.deferOpt == 0 {
+	} else if len(failed) == 0 && !w.deferV {
 		h.assert("C04.ok", o.class == vcOK)
 	}
 	// bystanders: functions outside the closure did not run
@@ -479,8 +569,11 @@ func (h *vHist) afterInvoke(r *vReg, o vOutcome, cl *vClosure, before []int) {
 		if !reg.accepted {
 			h.assert("C06.norun", len(reg.execs) == 0)
 		}
+		// C04: no constructor is entered whose direct dependencies are unavailable
+		if len(reg.execs) > before[i] && reg.f.kind == vCtor {
+			verifWitness("ctor-ran-in-invoke")
+		}
 	}
-	_ = f
 }
 
 func (o vOutcome) panicIsUser(w *vWorld) bool {
@@ -488,15 +581,30 @@ func (o vOutcome) panicIsUser(w *vWorld) bool {
 	return ok
 }
 
-func (h *vHist) execCounts() []int {
-	c := make([]int, len(h.w.regs))
-	for i, r := range h.w.regs {
+func (h *vHist) execCounts(w *vWorld) []int {
+	c := make([]int, len(w.regs))
+	for i, r := range w.regs {
 		c[i] = len(r.execs)
 	}
 	return c
 }
 
-// ---- the generic skeleton ------------------------------------------------------------------
+// ---- plans ---------------------------------------------------------------------------------
+
+const (
+	opScope = iota
+	opReg
+	opInvoke
+)
+
+type vOp struct {
+	kind   int
+	parent int // opScope
+	f      *vFunc
+	scope  int
+	tag    string
+	skip   bool // not applied (differential harnesses)
+}
 
 func (h *vHist) options() []Option {
 	var opts []Option
@@ -523,8 +631,27 @@ func (h *vHist) options() []Option {
 	return opts
 }
 
-func (h *vHist) doRegister(tag string) (*vReg, vOutcome) {
-	w := h.w
+// genScopes appends scope creations (free number and shape).
+func (h *vHist) genScopes(ops []vOp, tag string) []vOp {
+	for h.nScopes < h.p.maxScopes && verifNdBool(tag+".mkscope") {
+		parent := 0
+		if h.nScopes > 1 {
+			parent = verifNdInt(tag+".parent", h.nScopes)
+		}
+		ops = append(ops, vOp{kind: opScope, parent: parent, tag: tag})
+		h.nScopes++
+	}
+	return ops
+}
+
+func (h *vHist) genScopeIdx(tag string) int {
+	if h.nScopes == 1 {
+		return 0
+	}
+	return verifNdInt(tag+".scope", h.nScopes)
+}
+
+func (h *vHist) genReg(ops []vOp, tag string) []vOp {
 	kind := vCtor
 	nd := 0
 	for _, f := range h.funcs {
@@ -539,56 +666,107 @@ func (h *vHist) doRegister(tag string) (*vReg, vOutcome) {
 	if h.p.distinct {
 		h.assumeDistinct(f)
 	}
-	s := h.pickScope(tag)
-	before := w.nexec
-	r, o := w.register(f, s)
-	h.assert("C03.reg", w.nexec == before)
-	h.assert("C14.nopanic", o.class != vcPanicked)
-	verifObserve(tag + ":" + vClassNames[o.class])
-	if h.p.distinct && kind == vCtor {
-		// with distinct keys and no cycles a well-formed constructor is accepted
-		if o.class == vcCycle {
-			verifWitness("provide-cycle")
-		}
-	}
-	return r, o
+	return append(ops, vOp{kind: opReg, f: f, scope: h.genScopeIdx(tag), tag: tag})
 }
 
-func (h *vHist) doInvoke(tag string) (*vReg, vOutcome) {
-	w := h.w
+func (h *vHist) genInvoke(ops []vOp, tag string) []vOp {
 	f := h.genFunc(vInvoked, tag)
-	s := h.pickScope(tag)
-	cl := w.invokeClosure(s, f)
-	if h.p.noMissing {
-		verifAssume(!cl.missing)
-	}
-	h.inv, h.invF, h.invS = cl, f, s
-	before := h.execCounts()
-	r, o := w.invoke(f, s)
-	h.inv = nil
-	verifObserve(tag + ":" + vClassNames[o.class] + ":ran=" + vItoa(len(r.execs)) + vPanicText(o.panicv))
-	h.afterInvoke(r, o, cl, before)
-	return r, o
+	return append(ops, vOp{kind: opInvoke, f: f, scope: h.genScopeIdx(tag), tag: tag})
 }
 
-func (h *vHist) run() {
-	h.w = vNewWorld("A", h.options()...)
-	w := h.w
-	w.recover, w.deferV = h.wRecover, h.wDefer
-	w.onEnter = func(w *vWorld, e *vExec) { h.checkEnter(w, e) }
+// skeleton lists the generators of the history, in order.  Each generator
+// draws its part of the plan when it is reached, so that assumptions made
+// while applying earlier operations prune before later choices are drawn.
+func (h *vHist) skeleton() []func() []vOp {
+	var steps []func() []vOp
+	h.nScopes = 1
 	for i := 0; i < h.p.nRegs; i++ {
-		h.maybeScope("s" + vItoa(i))
-		h.doRegister("f" + vItoa(i))
+		i := i
+		steps = append(steps, func() []vOp {
+			return h.genReg(h.genScopes(nil, "s"+vItoa(i)), "f"+vItoa(i))
+		})
 	}
 	for j := 0; j < h.p.nInvokes; j++ {
-		if h.p.lateScopes || j == 0 {
-			h.maybeScope("si" + vItoa(j))
-		}
-		h.doInvoke("i" + vItoa(j))
+		j := j
+		steps = append(steps, func() []vOp {
+			var ops []vOp
+			if h.p.lateScopes || j == 0 {
+				ops = h.genScopes(ops, "si"+vItoa(j))
+			}
+			return h.genInvoke(ops, "i"+vItoa(j))
+		})
 		if j == 0 {
 			for i := 0; i < h.p.lateRegs; i++ {
-				h.doRegister("l" + vItoa(i))
+				i := i
+				steps = append(steps, func() []vOp { return h.genReg(nil, "l"+vItoa(i)) })
 			}
 		}
+	}
+	return steps
+}
+
+// apply runs a plan against a world, with the monitors.
+func (h *vHist) apply(w *vWorld, ops []vOp) {
+	w.onEnter = func(w *vWorld, e *vExec) { h.checkEnter(w, e) }
+	for _, op := range ops {
+		if op.skip {
+			continue
+		}
+		switch op.kind {
+		case opScope:
+			w.newScope(op.parent)
+			h.afterQuiet(w, op.tag+".scope")
+		case opReg:
+			before := w.nexec
+			_, o := w.register(op.f, op.scope)
+			h.assert("C03.reg", w.nexec == before)
+			h.assert("C14.nopanic", o.class != vcPanicked)
+			w.record(op.tag + ":" + vClassNames[o.class] + vPanicText(o.panicv))
+			if o.class == vcCycle {
+				verifWitness("provide-cycle")
+			}
+			if o.class == vcDig {
+				verifWitness("provide-rejected")
+			}
+			h.afterQuiet(w, op.tag)
+		case opInvoke:
+			cl := w.invokeClosure(op.scope, op.f)
+			if h.p.noMissing {
+				verifAssume(!cl.missing)
+			}
+			w.inv = cl
+			before := h.execCounts(w)
+			r, o := w.invoke(op.f, op.scope)
+			w.inv = nil
+			w.record(op.tag + ":" + vClassNames[o.class] + ":ran=" + vItoa(len(r.execs)) + vPanicText(o.panicv))
+			h.afterInvoke(w, r, o, cl, before)
+		}
+	}
+}
+
+// afterQuiet exercises the read-only API after a registration or scope
+// creation: nothing may execute (C03) and nothing may panic (C14).
+func (h *vHist) afterQuiet(w *vWorld, tag string) {
+	if !h.p.quietCalls {
+		return
+	}
+	before := w.nexec
+	o := vGuard(func() error { _ = w.c.String(); return nil })
+	h.assert("C14.nopanic", o.class != vcPanicked)
+	o = vGuard(func() error { return Visualize(w.c, vDiscard{}) })
+	h.assert("C14.nopanic", o.class != vcPanicked)
+	h.assert("C03.reg", w.nexec == before)
+}
+
+type vDiscard struct{}
+
+func (vDiscard) Write(b []byte) (int, error) { return len(b), nil }
+
+func (h *vHist) run() {
+	w := vNewWorld("A", h.options()...)
+	h.w = w
+	w.recover, w.deferV = h.wRecover, h.wDefer
+	for _, step := range h.skeleton() {
+		h.apply(w, step())
 	}
 }
